@@ -140,6 +140,7 @@ class CWMH(ProposalBasedSampler):
                 location= self.current_point, scale=self.scale).sample()
         else:
             x_all_components = self.proposal(self.current_point, self.scale)
+        x_all_components = np.atleast_1d(x_all_components) # a one-dimensional sample comes back as a scalar
 
         # Initialize acceptance rate
         acc = np.zeros(self.dim)
